@@ -84,6 +84,11 @@ def gen_history(rng, tier):
     if h['add_partition_at'] is not None and h['npartitions_arg'] and rng.random() < 0.6:
         # exactly the look-up made for the partitions that refresh_partitions discovers right after a restart
         h['committed_fail_at'] = [1 + h['committed_failures']]
+    if rng.random() < 0.25:
+        # the consumer pauses the source from inside one of its calls and it is started again a moment later, well before the
+        # polling loop wakes up from its sleep: the loop never notices and simply carries on (offsets stay gap-free, batches of
+        # the same poll round that have been scheduled but not yet emitted are still emitted)
+        h['stopstart'] = [[k, rng.choice([0.25, 0.5, -1, -3])] for k in sorted(rng.sample(range(6), rng.choice([1, 2])))]
     h['pre_holes'] = [[int(rng.random() < h['hole_rate']) for _ in range(n)] for n in h['pre']]
     return h
 
@@ -135,9 +140,35 @@ def run_incarnation(broker, h, crash_at=None, preload=False):
             def vals(batch):
                 return [(m['value'] if isinstance(m, dict) else m) for m in batch]
 
+            ss = {int(k): d for k, d in h.get('stopstart', [])}
+            ncall = {'n': 0}
+            loops = {'n': 0}
+            orig_poll = src.poll_kafka
+
+            def poll_logged():
+                loops['n'] += 1
+                return orig_poll()
+            src.poll_kafka = poll_logged
+
+            def lifecycle():
+                k = ncall['n']
+                ncall['n'] += 1
+                if k in ss:
+                    log.add('KAFKA', 'broker', 'stop_then_start', ss[k])
+                    src.stop()
+                    if ss[k] > 0:
+                        loop.call_later(ss[k], src.start)
+                    else:
+                        async def later(n=int(-ss[k])):
+                            for _ in range(n):
+                                await asyncio.sleep(0)
+                            src.start()
+                        asyncio.ensure_future(later())
+
             if kind == 'sync':
                 def sink(batch):
                     log.add('START', 'sk', vals(batch))
+                    lifecycle()
                     log.add('END', 'sk', vals(batch))
             else:
                 async def body(batch, k, prevs):
@@ -152,6 +183,7 @@ def run_incarnation(broker, h, crash_at=None, preload=False):
                     k = kcount['n']
                     kcount['n'] += 1
                     log.add('START', 'sk', vals(batch))
+                    lifecycle()
                     p = part_of(batch)
                     done = asyncio.Event()
                     if p is not None:
@@ -193,6 +225,7 @@ def run_incarnation(broker, h, crash_at=None, preload=False):
                 crashed = len(log.ev) >= crash_at
                 out['reason'] = 'crash' if crashed else 'ended-before-crash-point'
             out['log'] = log
+            out['poll_loops'] = loops['n']
             out['errors'] = list(env.errors)
             out['crashed'] = crashed
             broker.log = None
@@ -321,6 +354,18 @@ def check_history(h, crash_at, counters, sets):
         incs.append(inc)
         if inc['reason'] == 'iter-cap':
             return None, None
+        if h.get('stopstart') and any(e[2] == 'KAFKA' and e[4] == 'stop_then_start' for e in inc['log'].ev):
+            counters['runs_with_stop_and_start_during_a_poll_round'] = counters.get('runs_with_stop_and_start_during_a_poll_round', 0) + 1
+            if inc['poll_loops'] > 1:
+                # the loop did end and a new one re-read the committed offsets: a restart inside the process, which this
+                # oracle (one start position per incarnation) does not describe; one loop at a time is C18's business
+                counters['runs_set_aside_because_a_second_polling_loop_began'] = counters.get('runs_set_aside_because_a_second_polling_loop_began', 0) + 1
+
+                class SetAside:
+                    interesting = False
+                    n_events = len(inc['log'].ev)
+                    summary = {'restarted': False}
+                return SetAside, []
         for name, msg, exc in inc['errors']:
             if h.get('fetch_failures') and isinstance(exc, kafka_fake.KafkaException):
                 counters['injected_fetch_failures_seen'] = counters.get('injected_fetch_failures_seen', 0) + 1
